@@ -123,10 +123,10 @@ func (in *c10inst) Key() string {
 		}
 	}
 	sb.WriteString(lib.Canon(in.dis) + lib.Canon(in.unk) + fmt.Sprint(in.locOff, in.clock.Now().Unix()))
-	sb.WriteString(core.VerifDumpJSON(in.loc.VerifState()))
+	sb.WriteString(core.VerifKeyJSON(in.loc.VerifState()))
 	sb.WriteString(lib.Canon(lib.Pairs(in.ctx, in.store, "L")))
 	if in.parent {
-		sb.WriteString(core.VerifDumpJSON(in.home.VerifState()))
+		sb.WriteString(core.VerifKeyJSON(in.home.VerifState()))
 		sb.WriteString(lib.Canon(lib.Pairs(in.ctx, in.store, "P")))
 	}
 	return sb.String()
